@@ -8,6 +8,7 @@ mod num;
 mod run;
 mod shared;
 mod spec;
+mod tables;
 mod unit;
 
 use std::io::{self, BufWriter, Read, Write};
@@ -19,8 +20,13 @@ use spec::Body;
 fn main() -> ExitCode {
     let args: Vec<String> = std::env::args().collect();
     if args.len() != 2 {
-        eprintln!("usage: bei_harness <batch-file | ->");
+        eprintln!("usage: bei_harness <batch-file | - | --tables>");
         return ExitCode::from(2);
+    }
+    if args[1] == "--tables" {
+        let stdout = io::stdout();
+        tables::print_tables(&mut stdout.lock());
+        return ExitCode::SUCCESS;
     }
 
     let mut text = String::new();
